@@ -12,21 +12,36 @@ ORBIT_KEYS = ['eccentricity', 'orbital_period', 'semi_major_axis', 'orbital_freq
 BATCHED = [('eccentricity', 'orbital_period'), ('eccentricity', 'spin_period'), ('orbital_frequency', 'spin_frequency')]
 
 
-def alphabet():
-    ops = [{'via': 'world', 'kw': {k: 0}} for k in WORLD_KEYS] + [{'via': 'orbit', 'kw': {k: 0}} for k in ORBIT_KEYS]
-    ops += [{'via': 'world', 'kw': {a: 0, b: 0}} for a, b in BATCHED] + [{'via': 'orbit', 'kw': {'eccentricity': 0, 'orbital_period': 0}}]
+def alphabet(kind='cpl'):
+    sync = kind.endswith('_sync')
+    wk = [k for k in WORLD_KEYS if not (sync and k.startswith('spin'))]
+    ops = [{'via': 'world', 'kw': {k: 0}} for k in wk] + [{'via': 'orbit', 'kw': {k: 0}} for k in ORBIT_KEYS]
+    ops += [{'via': 'world', 'kw': {a: 0, b: 0}} for a, b in BATCHED if not (sync and (a.startswith('spin') or b.startswith('spin')))]
+    ops += [{'via': 'orbit', 'kw': {'eccentricity': 0, 'orbital_period': 0}}]
+    ops += [{'via': 'setter', 'kw': {'eccentricity': 0}}, {'via': 'setter', 'kw': {'orbital_period': 0}}, {'via': 'orbit_time', 'kw': {'time': 0}}]
+    if not sync:
+        ops += [{'via': 'setter', 'kw': {'spin_period': 0}}]
+    if kind in ('cpl_obl', 'ctl_obl', 'layered'):
+        ops += [{'via': 'world', 'kw': {'obliquity': 0}}, {'via': 'world', 'kw': {'obliquity': 0, 'eccentricity': 0}}, {'via': 'setter', 'kw': {'obliquity': 0}}]
+    if kind.startswith('layered'):
+        ops += [{'via': 'layer', 'kw': {'temperature': 0}}, {'via': 'layer_setter', 'kw': {'temperature': 0}}]
+    elif kind.startswith('cpl'):
+        ops += [{'via': 'tides', 'kw': {'fixed_q': 0}}]
+    elif kind.startswith('ctl'):
+        ops += [{'via': 'tides', 'kw': {'fixed_dt': 0}}]
     return ops
 
 
 def op_name(op):
-    return '%s.set_state(%s)' % (op['via'], ', '.join(sorted(op['kw'])))
+    via = {'world': 'world.set_state', 'orbit': 'orbit.set_state', 'setter': 'world.<attr> =', 'layer': 'mantle.set_state', 'layer_setter': 'mantle.temperature =', 'tides': 'world.set_fixed', 'orbit_time': 'orbit.time ='}[op['via']]
+    return '%s(%s)' % (via, ', '.join(sorted(op['kw'])))
 
 
-def run_tracer(world, histories, obliquity=False, timeout=3000):
+def run_tracer(world, histories, arrays=False, timeout=3000):
     with tempfile.TemporaryDirectory(prefix='verif_c13_') as td:
         env = dict(os.environ)
         env['PYTHONPATH'] = REPO
-        p = subprocess.run([replay.VENV_PY, os.path.join(VERIF, 'replay', 'c13_tracer.py')], input=json.dumps({'world': world, 'histories': histories, 'obliquity': obliquity}),
+        p = subprocess.run([replay.VENV_PY, os.path.join(VERIF, 'replay', 'c13_tracer.py')], input=json.dumps({'world': world, 'histories': histories, 'arrays': arrays}),
                            capture_output=True, text=True, cwd=td, env=env, timeout=timeout)
     if '@@RESULT@@' not in p.stdout:
         raise RuntimeError('tracer failed: %s\n%s' % (p.stdout[-500:], p.stderr[-1500:]))
@@ -110,66 +125,91 @@ def renumber(hist):
     return out
 
 
-def job_histories(world, k, chunk, nchunks):
-    ops = alphabet()
+def _differs(va, vb):
+    if va is None or vb is None:
+        return None
+    xa = va if isinstance(va, list) else [va]
+    xb = vb if isinstance(vb, list) else [vb]
+    if len(xa) != len(xb):
+        return True
+    return any(abs(p - q) > 1e-9 * (abs(p) + abs(q)) + 1e-300 or (p != p) != (q != q) for p, q in zip(xa, xb))
+
+
+def _strip(names):
+    return sorted({n.split('#')[0] for n in names})
+
+
+def job_histories(world, k, chunk, nchunks, arrays=False):
+    ops = alphabet(world)
     hs = []
     for n in range(0, k + 1):
         for combo in itertools.product(ops, repeat=n):
             hs.append(renumber(combo))
     hs = hs[chunk::nchunks]
-    out = run_tracer(world, hs)
+    out = run_tracer(world, hs, arrays=arrays)
+    tagw = world + ('/arrays' if arrays else '')
     results = []
     agg = {}
-    n_hist = n_q = n_same = 0
-    uncovered = []
+    n_hist = n_q = 0
+    uncovered = {}
     for rec in out:
         hname = ' ; '.join(op_name(o) for o in rec['history']) or '(no update after the initial state)'
         if 'error' in rec:
-            results.append(discharge(Obligation('%s world, history [%s]: executes' % (world, hname), z3.BoolVal(False), [], with_axioms=False, with_dens=False,
-                                                replay=lambda md, rec=rec: (True, 'real classes raised: %s' % rec['error']), key='raises:%s' % hname)))
+            results.append(discharge(Obligation('%s world, history [%s]: executes' % (tagw, hname), z3.BoolVal(False), [], with_axioms=False, with_dens=False,
+                                                replay=lambda md, rec=rec: (True, 'real classes raised: %s\n%s' % (rec['error'], rec.get('trace', ''))), key='raises:%s:%s' % (tagw, rec['error'][:60]))))
             continue
         n_hist += 1
         tr = Tr()
-        for q, a in rec['hist'].items():
-            b = rec['fresh'][q]
+        pairs = [('history', q, rec['hist'][q], rec['fresh'][q]) for q in rec['hist']]
+        pairs += [('functional', q, rec['functional'][q], rec['fresh'][q]) for q in rec['functional'] if q in rec['fresh']]
+        if '_error' in rec['functional']:
+            uncovered['functional pipeline failed: %s' % rec['functional']['_error'].get('error', '')[:120]] = 1
+        for which, q, a, b in pairs:
             if 'error' in a or 'error' in b:
-                uncovered.append('%s [%s]: %s' % (q, hname, a.get('error') or b.get('error')))
+                if ('error' in a) != ('error' in b):
+                    results.append(discharge(Obligation('%s world, history [%s]: %s is available in both worlds' % (tagw, hname, q), z3.BoolVal(False), [], with_axioms=False, with_dens=False,
+                                                        replay=lambda md, a=a, b=b: (True, 'after history: %s ; fresh world: %s' % (a.get('error', 'a value'), b.get('error', 'a value'))), key='avail:%s:%s' % (tagw, q))))
+                else:
+                    uncovered['%s: getter raises in both worlds (%s)' % (q, a.get('error'))] = 1
                 continue
             n_q += 1
             ta, tb = tr.t(a['term']), tr.t(b['term'])
             goal = ta == tb
             va, vb = a.get('value'), b.get('value')
-            stale = sorted(inputs_in(a['term']) - inputs_in(b['term']))
+            stale = _strip(inputs_in(a['term']) - inputs_in(b['term'])) if which == 'history' else []
+            missing = _strip(inputs_in(b['term']) - inputs_in(a['term']))
 
-            def rp(md, va=va, vb=vb, q=q, hname=hname, stale=stale):
-                if va is None or vb is None:
+            def rp(md, va=va, vb=vb, q=q, hname=hname, stale=stale, missing=missing, which=which):
+                d = _differs(va, vb)
+                if d is None:
                     return False, 'no concrete value to compare'
-                differs = abs(va - vb) > 1e-9 * (abs(va) + abs(vb)) + 1e-300
-                return differs, '%s after [%s] = %r, fresh world in the same final state = %r (real classes, concrete run); stale inputs in the history term: %s' % (q, hname, va, vb, stale)
-            ob = Obligation('%s world, history [%s]: %s has the same provenance term as a fresh world in the final state (valid for all interpretations of the leaf functions)' % (world, hname, q),
-                            goal, [], with_axioms=False, with_dens=False, replay=rp, key='stale:%s:%s' % (world, q), timeout_ms=20000)
-            r = discharge(ob)
+                lhs = ('%s after [%s]' % (q, hname)) if which == 'history' else ('functional pipeline value of %s at the final state of [%s]' % (q, hname))
+                return d, '%s = %r, fresh world in the same final state = %r (real classes, concrete run); inputs only in the left term: %s; only in the fresh term: %s' % (lhs, va, vb, stale, missing)
+            if which == 'history':
+                nm = '%s world, history [%s]: %s has the same provenance term as a fresh world in the final state (valid for all interpretations of the leaf functions)' % (tagw, hname, q)
+                key = 'stale:%s:%s:%s' % (tagw, q, ','.join(stale) or ','.join(missing) or 'other')
+            else:
+                nm = '%s world, final state of [%s]: the functional pipeline term of %s equals the fresh world term' % (tagw, hname, q)
+                key = 'functional:%s:%s' % (tagw, q)
+            r = discharge(Obligation(nm, goal, [], with_axioms=False, with_dens=False, replay=rp, key=key, timeout_ms=20000))
             if r['verdict'] == 'sat' and r.get('replay_ok') is False:
-                # terms differ but the concrete values agree: abstraction artefact (uninterpreted leaf functions); not a violation, reported as not covered
-                uncovered.append('%s [%s]: terms differ, values agree (%r)' % (q, hname, va))
-                r['verdict'] = 'unsat'
-                r['info'] = dict(r.get('info') or {}, note='sat under EUF abstraction but concrete values agree: counted as not covered')
-                r['name'] += ' [NOT COVERED: abstraction]'
+                # terms differ but the concrete values agree: abstraction artefact (lost provenance / uninterpreted leaves); not a violation, reported as not covered
+                uncovered['%s (%s): terms differ under the abstraction, concrete values agree' % (q, which)] = uncovered.get('%s (%s): terms differ under the abstraction, concrete values agree' % (q, which), 0) + 1
+                continue
             if r['verdict'] == 'unsat':
-                n_same += 1
-                k_ = (q,)
+                k_ = (which, q)
                 agg.setdefault(k_, [0, 0.0])
                 agg[k_][0] += 1
                 agg[k_][1] += r['solver_s']
             else:
                 results.append(r)
-    # aggregate the discharged obligations per quantity (thousands of identical-shape queries)
-    for (q,), (cnt, ts) in sorted(agg.items()):
-        results.append({'name': '%s world, %d histories of length <= %d (chunk %d/%d): %s equals the fresh-world term' % (world, cnt, k, chunk + 1, nchunks, q), 'key': 'ok:%s:%s' % (world, q),
+    for (which, q), (cnt, ts) in sorted(agg.items()):
+        results.append({'name': '%s world, %d histories of length <= %d (chunk %d/%d): %s term of %s equals the fresh-world term' % (tagw, cnt, k, chunk + 1, nchunks, which, q), 'key': 'ok:%s:%s:%s' % (tagw, which, q),
                         'verdict': 'unsat', 'solver_s': round(ts, 3), 'info': {'queries': cnt}})
-    return {'results': results, 'encoded': [{'file': 'TidalPy/tides/methods/base.py, global_approx.py, structures/world_types/*.py, structures/orbit/*.py', 'function': 'real classes driven concretely under the provenance tracer (replay/c13_tracer.py)',
-                                             'sha256_16': _sha_of_sources()}],
-            'notes': ['%d histories, %d quantity comparisons, %d not covered' % (n_hist, n_q, len(uncovered))] + uncovered[:10], 'label': '%s k<=%d chunk %d' % (world, k, chunk)}
+    return {'results': results, 'encoded': [{'file': 'TidalPy/tides/methods/{base,global_approx,layered}.py, structures/world_types/*.py, structures/orbit/*.py, structures/layers/physics.py, rheology/rheology.py',
+                                             'function': 'real classes driven concretely under the provenance tracer (replay/c13_tracer.py)', 'sha256_16': _sha_of_sources()}],
+            'notes': ['%s k<=%d chunk %d: %d histories, %d term comparisons' % (tagw, k, chunk, n_hist, n_q)] + ['NOT COVERED (%s, chunk %d): %s x%d' % (tagw, chunk, u, c) for u, c in list(uncovered.items())[:12]],
+            'label': '%s k<=%d chunk %d' % (tagw, k, chunk)}
 
 
 def _sha_of_sources():
@@ -183,20 +223,23 @@ def _sha_of_sources():
 def main():
     jobs = []
     if TIER == 'thorough':
-        plan = [('cpl', 3, 12), ('ctl', 2, 4)]
+        plan = [('cpl', 3, 16, False), ('ctl', 2, 4, False), ('cpl_obl', 2, 4, False), ('cpl_sync', 2, 4, False), ('layered', 2, 8, False), ('cpl', 2, 4, True), ('layered', 1, 1, True)]
     else:
-        plan = [('cpl', 2, 6), ('ctl', 1, 1)]
-    for world, k, n in plan:
+        plan = [('cpl', 2, 6, False), ('ctl', 1, 1, False), ('cpl_obl', 1, 1, False), ('cpl_sync', 1, 1, False), ('layered', 1, 2, False), ('cpl', 1, 1, True)]
+    for world, k, n, arrays in plan:
         for c in range(n):
-            jobs.append((job_histories, {'world': world, 'k': k, 'chunk': c, 'nchunks': n}))
+            jobs.append((job_histories, {'world': world, 'k': k, 'chunk': c, 'nchunks': n, 'arrays': arrays}))
+    bounds_txt = '; '.join('%s%s: histories of length <= %d over %d operations' % (w, ' (array-valued inputs)' if ar else '', k, len(alphabet(w))) for w, k, n, ar in plan)
     meta = {
         'explanation': 'The real BaseWorld/TidalWorld/OrbitBase/PhysicsOrbit/TidesBase/GlobalApproxTides classes are driven in /venv/bin/python under a provenance tracer: leaf numeric functions '
                        '(eccentricity/inclination functions, calculate_terms, collapse_modes, susceptibility, CPL/CTL helpers, conversions, derivative functions) are wrapped at their import sites and return '
                        'values that carry the uninterpreted term f(args); setter inputs are tagged symbols; a float subclass carries terms through inline arithmetic. Operation sequences (symbolic choice of the '
                        'operation at each step = enumeration of the bounded history space) are executed; for every exposed quantity z3 decides the validity of T_history = T_fresh over uninterpreted functions '
                        '+ real arithmetic, i.e. for ALL input values and all interpretations of the leaves. A sat answer is confirmed by the concrete values of the same real run before it is reported.',
-        'bounds': 'histories of length <= %s over %d operations (single and batched set_state through the world and through the orbit); global-approximation CPL and CTL worlds; scalars.' % ({'quick': 'k=2 (CPL), 1 (CTL)', 'thorough': 'k=3 (CPL), 2 (CTL)'}[TIER if TIER == 'thorough' else 'quick'], len(alphabet())),
-        'outside': 'layered (multi-layer rheology) worlds; arrays; time / temperature updates; quantities whose provenance is lost are listed as not covered, not as passed.',
+        'bounds': bounds_txt + '. Operations: single and batched set_state through the world and through the orbit, attribute setters, time, obliquity, layer temperature, fixed-Q / fixed-dt. '
+                  'Worlds: global-approximation CPL / CTL (with and without obliquity tides, forced spin-synchronous) and a two-layer Io with Maxwell/Andrade layered tides.',
+        'outside': 'longer histories; other world configurations, eccentricity truncations and tidal orders (the update cascade does not branch on them); branches of the cascade that depend on input VALUES are followed for the one '
+                   'concrete value per symbol used by the tracer; quantities whose provenance is lost are listed in the notes as NOT COVERED, not as passed.',
         'assumptions': ['leaf functions are deterministic functions of their arguments'],
         'stubs': ['leaf numeric functions abstracted to uninterpreted functions (their values are real)'],
     }
